@@ -143,7 +143,7 @@ fn c17a_origin_set_runs_v4() {
     // tree nodes only ever carry indices of existing data entries
     kani::assume(idx < 3);
     match b.origin_set(idx) {
-        None => assert!(false),
+        None => { assert!(false); }
         Some(set) => {
             let n = set.iter().count();
             assert!(set.prefix() == b.0[idx].prefix);
